@@ -21,7 +21,9 @@
       `oversized_rejected`, `never_misread`, and `oversized_compressible_not_roundtrip` which shows that the size
       bound in `frame_roundtrip` is necessary (a compressible payload above MaxUncompressedBucketSize is framed by
       CompressAndFrame but refused by Decompress).
-  Partial: TL2 and JSON are not modelled (Go-side round-trip oracle for every type only); the "bytes and string
+    * TL2: `tl2_size_roundtrip` (the size codec that frames every TL2 string/object/vector/dictionary, all three forms,
+      every n ≤ MaxInt), `tl2_size_length`, `tl2_string_roundtrip`; tied to basictl2.go at every form boundary.
+  Partial: the generated TL2 object codecs and JSON are not modelled (Go-side round-trip oracle for every type only); the "bytes and string
   variants encode identically" clause is a fact about two copies of generated Go code — in the model both are the one
   `Desc.str`, so it is checked by the Go oracle, not stated as a theorem.
 -/
@@ -267,6 +269,84 @@ example : dec (.union (.cons 5 (.struct [] .nil) (.cons 7 .nat .nil))) [] [7, 0,
 example : dec .str [] [254, 3, 0, 0, 1, 2, 3, 0] = none := by decide        -- medium form for a short length
 example : dec .str [] [3, 1, 2, 3] = some (.str [1, 2, 3], []) := by decide
 example : dec .str [] [2, 1, 2, 1] = none := by decide                       -- non-zero padding
+
+/-! ### TL2: the size codec and strings (basictl2.go)
+
+  Every TL2 string, object, vector and dictionary is framed by `TL2WriteSize`; the three forms switch at 254 and
+  254 + 2^16. The generated TL2 object codecs themselves stay oracle-only. -/
+
+theorem tl2Tiny_iff (l : Nat) : tl2Tiny l = true ↔ l < 254 := by
+  unfold tl2Tiny mediumStringMarker; exact decide_eq_true_iff
+theorem tl2Medium_iff (l : Nat) : tl2Medium l = true ↔ l < 65790 := by
+  unfold tl2Medium mediumStringMarker; exact decide_eq_true_iff
+
+/-- TL2ParseSize (TL2WriteSize n ++ rest) = (n, rest) for every size an `int` can hold -/
+theorem tl2_size_roundtrip (n : Nat) (hn : n ≤ maxInt) (r : Bytes) :
+    tl2ParseSize (tl2WriteSize n ++ r) = some (n, r) := by
+  unfold maxInt at hn
+  by_cases h1 : tl2Tiny n = true
+  · have h1' : n < 254 := (tl2Tiny_iff n).1 h1
+    have hh : tl2WriteSize n = [UInt8.ofNat n] := by simp [tl2WriteSize, h1]
+    have e : (UInt8.ofNat n).toNat = n := by rw [UInt8.toNat_ofNat']; omega
+    rw [hh]
+    simp only [List.cons_append, List.nil_append, tl2ParseSize, e, mediumStringMarker, h1', if_true]
+  · have h1' : ¬ n < 254 := fun x => h1 ((tl2Tiny_iff n).2 x)
+    by_cases h2 : tl2Medium n = true
+    · have h2' : n < 65790 := (tl2Medium_iff n).1 h2
+      have hh : tl2WriteSize n = [254, UInt8.ofNat ((n - 254) % 256), UInt8.ofNat ((n - 254) / 256 % 256)] := by
+        simp [tl2WriteSize, h1, h2]
+      have e : 254 + ((UInt8.ofNat ((n - 254) % 256)).toNat + (UInt8.ofNat ((n - 254) / 256 % 256)).toNat * 256) = n := by
+        simp only [UInt8.toNat_ofNat']; omega
+      have c1 : ¬ (254 : UInt8).toNat < 254 := by decide
+      have c2 : (254 : UInt8).toNat = 254 := by decide
+      rw [hh]
+      simp only [List.cons_append, List.nil_append, tl2ParseSize, mediumStringMarker, c2, if_true, e]
+      simp
+    · have h2' : ¬ n < 65790 := fun x => h2 ((tl2Medium_iff n).2 x)
+      have hh : tl2WriteSize n = 255 :: le64 n := by simp [tl2WriteSize, h1, h2]
+      have e : (UInt8.ofNat (n % 256)).toNat + (UInt8.ofNat (n / 256 % 256)).toNat * 256
+            + (UInt8.ofNat (n / 65536 % 256)).toNat * 65536 + (UInt8.ofNat (n / 16777216 % 256)).toNat * 16777216
+            + (UInt8.ofNat (n / 4294967296 % 256)).toNat * 4294967296
+            + (UInt8.ofNat (n / 1099511627776 % 256)).toNat * 1099511627776
+            + (UInt8.ofNat (n / 281474976710656 % 256)).toNat * 281474976710656
+            + (UInt8.ofNat (n / 72057594037927936 % 256)).toNat * 72057594037927936 = n := by
+        simp only [UInt8.toNat_ofNat']; omega
+      have c1 : ¬ (255 : UInt8).toNat < 254 := by decide
+      have c2 : ¬ (255 : UInt8).toNat = 254 := by decide
+      have c3 : ¬ n > 9223372036854775807 := by omega
+      rw [hh]
+      simp only [le64, List.cons_append, List.nil_append, tl2ParseSize, mediumStringMarker, maxInt, c1, c2, if_false, e, c3]
+
+/-- TL2CalculateSize is the number of bytes TL2WriteSize / TL2PutSize produce -/
+theorem tl2_size_length (n : Nat) : (tl2WriteSize n).length = tl2CalculateSize n := by
+  unfold tl2WriteSize tl2CalculateSize
+  by_cases h1 : tl2Tiny n = true
+  · simp [h1]
+  · by_cases h2 : tl2Medium n = true <;> simp [h1, h2, le64]
+
+/-- StringReadTL2 (StringWriteTL2 b ++ rest) = (b, rest) -/
+theorem tl2_string_roundtrip (b r : Bytes) (hn : b.length ≤ maxInt) :
+    tl2ReadStr (tl2WriteStr b ++ r) = some (b, r) := by
+  unfold tl2ReadStr tl2WriteStr
+  rw [List.append_assoc, tl2_size_roundtrip _ hn]
+  exact takeN_append b r
+
+example : tl2WriteSize 65789 = [254, 255, 255] := by decide
+example : tl2WriteSize 65790 = [255, 254, 0, 1, 0, 0, 0, 0, 0] := by decide
+example : tl2ParseSize [254, 0, 0, 7] = some (254, [7]) := by decide
+example : tl2ParseSize [255, 3, 0, 0, 0, 0, 0, 0, 0] = some (3, []) := by decide          -- non-canonical huge form accepted
+example : tl2ParseSize [255, 0, 0, 0, 0, 0, 0, 0, 128] = none := by decide                -- > MaxInt
+example : tl2ParseSize [254, 1] = none := by decide
+
+/-! ### reused destinations
+
+  The generated readers fill an existing object (`item.ReadTL1(w)` without Reset, slices and maps reused). In this
+  model `dec` is a *function* of the descriptor, the environment and the bytes — there is no destination whose previous
+  content it could depend on — so "reading into a used object yields the same value as reading into a fresh one" is
+  not a theorem about the model but an obligation on the correspondence: the harness produces the observation of some
+  `dec` ops from an object (both the string and the []byte variant) that has just read another, fully populated value
+  of the same type, and the driver's answer must still match; the Go oracle additionally compares the reused object
+  field by field with a freshly read one (`tl1-reused-*`, `tl2-reused-*`). -/
 
 /-! ### bucket frames -/
 
